@@ -32,6 +32,16 @@ def _subst_expr(expr, target_canon, repl):
     return T().visit(A.clone(expr))
 
 
+def _acc(e):
+    """`self.tbl['K']` -> `self['K']` (the same column, see prenorm.column_accessors) so that both spellings compare equal in this rule"""
+    e = A.clone(e)
+    for n in ast.walk(e):
+        if isinstance(n, ast.Subscript) and isinstance(n.slice, ast.Constant) and isinstance(n.slice.value, str) and isinstance(n.value, ast.Attribute) and n.value.attr == "tbl" \
+                and isinstance(n.value.value, ast.Name) and n.value.value.id == "self":
+            n.value = n.value.value
+    return e
+
+
 def check_wrap(ctx):
     R = "C17-WRAP"
     ctx.rule(R, "wrap_K: every store is subscripted by the one mask K < 0; K <- |K| on those rows; omega <- (omega + pi rad) mod (2 pi rad) on those rows, with pi carrying "
@@ -56,24 +66,24 @@ def check_wrap(ctx):
             continue
         ctx.check(R, s, "store to %s is restricted to the mask" % colname, canon(tgt.slice) == mname,
                   "`%s` updates rows selected by `%s`, not only the rows with K < 0" % (A.unparse(tgt), A.unparse(tgt.slice)), key="masked:" + colname + ":" + str(len([k for k in final if k == colname])))
-        val = s.value if isinstance(s, ast.Assign) else ast.BinOp(left=A.clone(tgt), op=s.op, right=s.value)
+        val = _acc(s.value if isinstance(s, ast.Assign) else ast.BinOp(left=A.clone(tgt), op=s.op, right=s.value))
         if colname in final:
-            val = _subst_expr(val, canon(tgt), final[colname])
+            val = _subst_expr(val, canon(_acc(tgt)), final[colname])
         final[colname] = val
-    K0 = parse("self.tbl['K'][%s]" % mname)
-    O0 = parse("self.tbl['omega'][%s]" % mname)
+    K0 = parse("self['K'][%s]" % mname)
+    O0 = parse("self['omega'][%s]" % mname)
     if "K" in final:
         k = canon(final["K"])
-        okk = k in (canon(parse("np.abs(self.tbl['K'][%s])" % mname)), canon(parse("abs(self.tbl['K'][%s])" % mname)), canon(parse("-self.tbl['K'][%s]" % mname)))
+        okk = k in (canon(parse("np.abs(self['K'][%s])" % mname)), canon(parse("abs(self['K'][%s])" % mname)), canon(parse("-self['K'][%s]" % mname)))
         ctx.check(R, fn, "K <- |K| on the masked rows", okk, "K becomes `%s`" % A.unparse(final["K"])[:70], key="K")
     else:
         ctx.violate(R, fn, "K <- |K| on the masked rows", "K is never updated", key="K")
     if "omega" in final:
         o = final["omega"]
-        forms = ["(self.tbl['omega'][M] + np.pi * u.rad) % (2 * np.pi * u.rad)", "(self.tbl['omega'][M] + np.pi * u.radian) % (2 * np.pi * u.radian)",
-                 "np.mod(self.tbl['omega'][M] + np.pi * u.rad, 2 * np.pi * u.rad)", "(self.tbl['omega'][M] - np.pi * u.rad) % (2 * np.pi * u.rad)",
-                 "np.mod(self.tbl['omega'][M].to_value(u.rad) + np.pi, 2 * np.pi) * u.rad", "((self.tbl['omega'][M].to_value(u.rad) + np.pi) % (2 * np.pi)) * u.rad",
-                 "(self.tbl['omega'][M] + 180 * u.deg) % (360 * u.deg)"]
+        forms = ["(self['omega'][M] + np.pi * u.rad) % (2 * np.pi * u.rad)", "(self['omega'][M] + np.pi * u.radian) % (2 * np.pi * u.radian)",
+                 "np.mod(self['omega'][M] + np.pi * u.rad, 2 * np.pi * u.rad)", "(self['omega'][M] - np.pi * u.rad) % (2 * np.pi * u.rad)",
+                 "np.mod(self['omega'][M].to_value(u.rad) + np.pi, 2 * np.pi) * u.rad", "((self['omega'][M].to_value(u.rad) + np.pi) % (2 * np.pi)) * u.rad",
+                 "(self['omega'][M] + 180 * u.deg) % (360 * u.deg)"]
         oko = any(canon(o) == canon(parse(f.replace("M", mname))) for f in forms)
         why = "omega becomes `%s`" % A.unparse(o)[:90]
         if not oko:
@@ -212,10 +222,10 @@ def check_meta(ctx):
     if len(loops) == 1 and canon(loops[0].iter) in iters_ok and isinstance(loops[0].target, ast.Name):
         k = loops[0].target.id
         st = [s for s in loops[0].body if isinstance(s, ast.Assign) and isinstance(s.targets[0], ast.Subscript)]
-        oka = len(st) == 1 and canon(st[0].targets[0].slice) == k and canon(strip_to(A.inline_temporaries(st[0].value, st[0], ap))) == canon(parse("func(self[%s])" % k))
+        oka = len(st) == 1 and canon(st[0].targets[0].slice) == k and canon(strip_to(A.inline_temporaries(st[0].value, st[0], ap))) in (canon(parse("func(self[%s])" % k)), canon(parse("func(self.tbl[%s])" % k)))
     elif len(comps) == 1 and len(comps[0].generators) == 1 and canon(comps[0].generators[0].iter) in iters_ok and not comps[0].generators[0].ifs and isinstance(comps[0].generators[0].target, ast.Name):
         k = comps[0].generators[0].target.id
-        oka = canon(comps[0].key) == k and canon(strip_to(comps[0].value)) == canon(parse("func(self[%s])" % k))
+        oka = canon(comps[0].key) == k and canon(strip_to(comps[0].value)) in (canon(parse("func(self[%s])" % k)), canon(parse("func(self.tbl[%s])" % k)))
     if False:
         pass
     ctx.check(R, ap, "_apply reduces every column under its own name", oka, "loop body does not store func(self[k]) under k for every column", key="apply")
